@@ -8,15 +8,15 @@ class C02(Prop):
     id = "C02"
     title = "Session lifecycle for N UEs: establish, service request, release, deregister"
     lean_module = "Stgutg.Props.C02"
-    extra_modules = ["Stgutg.Props.Glue.names", "Stgutg.Props.Glue.stgutg_EstablishPDU", "Stgutg.Props.Glue.stgutg_ServiceRequest", "Stgutg.Props.Glue.stgutg_ReleasePDU", "Stgutg.Props.Glue.stgutg_DeregisterUE", "Stgutg.Props.Glue.stgutg_FindPDUSessionResourceSetupListSUReq", "Stgutg.Props.Glue.stgutg_DecodePDUSessionNASPDU", "Stgutg.Props.Glue.stgutg_DecodePDUSessionResourceSetupRequestTransfer", "Stgutg.Props.Glue.tglib_GetPDUSessionResourceSetupResponse", "Stgutg.Props.Glue.tglib_GetPDUSessionResourceReleaseResponse", "Stgutg.Props.Glue.tglib_GetInitialContextSetupResponseForServiceRequest", "Stgutg.Props.Glue.tglib_GetUEContextReleaseComplete", "Stgutg.Props.Glue.tglib_GetUplinkNASTransport", "Stgutg.Props.Glue.tglib_GetInitialUEMessage", "Stgutg.Props.Glue.tglib_EncodeNasPduWithSecurity", "Stgutg.Props.Glue.tglib_NASEncode", "Stgutg.Proofs.BuildersLife", "Stgutg.Props.C02Steps", "Stgutg.Props.C02Life", "Stgutg.Props.C02History",
+    extra_modules = ["Stgutg.Props.Glue.names", "Stgutg.Props.Glue.stgutg_EstablishPDU", "Stgutg.Props.Glue.stgutg_ServiceRequest", "Stgutg.Props.Glue.stgutg_ReleasePDU", "Stgutg.Props.Glue.stgutg_DeregisterUE", "Stgutg.Props.Glue.stgutg_FindPDUSessionResourceSetupListSUReq", "Stgutg.Props.Glue.stgutg_DecodePDUSessionNASPDU", "Stgutg.Props.Glue.stgutg_DecodePDUSessionResourceSetupRequestTransfer", "Stgutg.Props.Glue.tglib_GetPDUSessionResourceSetupResponse", "Stgutg.Props.Glue.tglib_GetPDUSessionResourceReleaseResponse", "Stgutg.Props.Glue.tglib_GetInitialContextSetupResponseForServiceRequest", "Stgutg.Props.Glue.tglib_GetUEContextReleaseComplete", "Stgutg.Props.Glue.tglib_GetUplinkNASTransport", "Stgutg.Props.Glue.tglib_GetInitialUEMessage", "Stgutg.Proofs.BuildersLife", "Stgutg.Props.C02Steps", "Stgutg.Props.C02Life", "Stgutg.Props.C02History",
                      "Stgutg.Props.C02Script", "Stgutg.Proofs.EmulatorLife", "Stgutg.Props.C02Accepted",
                      "Stgutg.Proofs.EmulatorDlLife", "Stgutg.Proofs.EmulatorLifeReenc", "Stgutg.Proofs.EmulatorLifeArgs",
                      "Stgutg.Props.C02AcceptedOne", "Stgutg.Proofs.EmulatorLifeN", "Stgutg.Proofs.EmulatorLifeLoops",
-                     "Stgutg.Props.C02AcceptedN", "Stgutg.Props.C02Statement", "Stgutg.Props.C02Traffic", "Stgutg.Proofs.GenTieMin", "Stgutg.Gen.PureSelftest"]
-    gen = ["schema", "registry", "templates", "nasie", "naslayout", "nassetters", "extract", "script", "tables", "traffic", "pure-min", "pure-selftest", "procs"]
-    theorems = ["Stgutg.Props.GluePinned." + t for t in [
+                     "Stgutg.Props.C02AcceptedN", "Stgutg.Props.C02Statement", "Stgutg.Props.C02Traffic", "Stgutg.Proofs.GenTieMin", "Stgutg.Gen.PureSelftest", "Stgutg.Proofs.GenTieNas", "Stgutg.Gen.PureSelftestRich"]
+    gen = ["schema", "registry", "templates", "nasie", "naslayout", "nassetters", "extract", "script", "tables", "traffic", "pure-min", "pure-selftest", "procs", "pure-count", "pure-nasprot"]
+    theorems = ["Stgutg.Proofs.GenTie.Nas.NASEncode_eq", "Stgutg.Proofs.GenTie.Nas.EncodeNasPduWithSecurity_eq"] + ["Stgutg.Props.GluePinned." + t for t in [
         # the glue functions this property depends on are still the text the models were written from (gen procs)
-        "names", "stgutg_EstablishPDU", "stgutg_ServiceRequest", "stgutg_ReleasePDU", "stgutg_DeregisterUE", "stgutg_FindPDUSessionResourceSetupListSUReq", "stgutg_DecodePDUSessionNASPDU", "stgutg_DecodePDUSessionResourceSetupRequestTransfer", "tglib_GetPDUSessionResourceSetupResponse", "tglib_GetPDUSessionResourceReleaseResponse", "tglib_GetInitialContextSetupResponseForServiceRequest", "tglib_GetUEContextReleaseComplete", "tglib_GetUplinkNASTransport", "tglib_GetInitialUEMessage", "tglib_EncodeNasPduWithSecurity", "tglib_NASEncode"]] + ["Stgutg.Proofs.GenTie.Min.Min_eq"] + ["Stgutg.Props.C02Traffic." + t for t in [
+        "names", "stgutg_EstablishPDU", "stgutg_ServiceRequest", "stgutg_ReleasePDU", "stgutg_DeregisterUE", "stgutg_FindPDUSessionResourceSetupListSUReq", "stgutg_DecodePDUSessionNASPDU", "stgutg_DecodePDUSessionResourceSetupRequestTransfer", "tglib_GetPDUSessionResourceSetupResponse", "tglib_GetPDUSessionResourceReleaseResponse", "tglib_GetInitialContextSetupResponseForServiceRequest", "tglib_GetUEContextReleaseComplete", "tglib_GetUplinkNASTransport", "tglib_GetInitialUEMessage"]] + ["Stgutg.Proofs.GenTie.Min.Min_eq"] + ["Stgutg.Props.C02Traffic." + t for t in [
         # the traffic-mode branch of main (not runnable here: XDP) makes the calls of test mode with counts (N, N, 0, N, N)
         "C02_traffic_structure", "C02_traffic_calls", "C02_traffic_no_trap", "test_mode_skeleton", "C02_traffic_is_test_mode",
         "C02_traffic_dataplane"]] + ["Stgutg.Props.C02." + t for t in [
